@@ -56,6 +56,7 @@ type c15Case struct {
 	AckFirst   bool      `json:"ack_first"` // client acknowledges the server's SETTINGS
 	MaxHdr     int       `json:"max_hdr"`   // http.Server.MaxHeaderBytes (0 = 1024)
 	Steps      []c15Step `json:"steps"`
+	Aim      string    `json:"aim,omitempty"`
 }
 
 // malformed request kinds (Op of a "bad" step)
@@ -190,6 +191,28 @@ func c15Gen(t *rapid.T) c15Case {
 		return s
 	})
 	c.Steps = rapid.SliceOfN(step, 1, 40).Draw(t, "steps")
+	if rapid.IntRange(0, 5).Draw(t, "aim-busy-writer") == 0 {
+		// Control frames queued behind a writer that is stuck: a response body larger
+		// than the write buffer is being written to a peer that does not read (bounded
+		// pipe), and two or three PINGs with different payloads arrive meanwhile; their
+		// ACKs wait in the scheduler and must still carry each PING's own data.
+		if c.ReadBuf == 0 {
+			c.ReadBuf = rapid.SampledFrom([]int{64, 1024, 16384}).Draw(t, "aim-readbuf")
+		}
+		p1 := rapid.Uint64().Draw(t, "aim-p1")
+		pre := []c15Step{
+			{Kind: "open", End: true},
+			{Kind: "h", K: -1, Op: 1, V: 70000, NoDrain: true},
+			{Kind: "ping", Ping: p1, NoDrain: true},
+			{Kind: "ping", Ping: ^p1, NoDrain: true},
+			{Kind: "ping", Ping: p1 + 1},
+		}
+		c.Steps = append(pre, c.Steps...)
+		c.Aim = "busy-writer-pings"
+		if len(c.Steps) > 40 {
+			c.Steps = c.Steps[:40]
+		}
+	}
 	return c
 }
 
@@ -826,6 +849,9 @@ func c15Run(c c15Case, r *vp.Rec) error {
 
 	// classes
 	r.Classf("limit-%d", c.MaxStreams)
+	if c.Aim != "" {
+		r.Class("aim:" + c.Aim)
+	}
 	r.Classf("sched-%d", c.Sched)
 	if c.ReadBuf > 0 {
 		r.Class("bounded-read-buffer")
